@@ -1,2 +1,118 @@
--- C11 property theorems (to be written)
-import Nq.Basic
+/-
+  C11 — local deliveries run as exactly the user the address belongs to, never root.
+
+  Theorems about the executable model `Nq.Users` (tied to qmail-newu.c, cdb*.c, qmail-lspawn.c, qmail-getpw.c,
+  spawn.c, prot.c by the correspondence harness harness/c11_users.c and to qlx.h / report() by the translator),
+  stated with the predicates of `Nq.Spec.Users` — the same functions the driver evaluates, compiled, on the
+  implementation's traces.
+-/
+import Nq.Users
+import Nq.Spec.Users
+import Nq.Lemmas.UsersSpawn
+
+namespace Nq.Props.C11
+open Nq Nq.Users Nq.Spec.Users Nq.Gen.Lspawn Nq.Lemmas.Users
+
+/-! ## order of the privileged calls; never root -/
+
+/-- Whatever the tables, the passwd database, the recipient and the injected fault: qmail-local is executed only
+    immediately after successful `setgroups [g]`, `setgid g`, `setuid u` and a `getuid` that returned `u ≠ 0`. -/
+theorem C11_order (env : Env) (flt : Fault) (sender loc dom : Bytes) :
+    guardedAny [] (spawnChild env flt sender loc dom).1 = true := by
+  unfold spawnChild
+  split
+  · simp [guardedAny]
+  · split
+    · simp [guardedAny, isExecLocal]
+    · have hq := nughdeGet_quiet env flt loc
+      have hc : isExecLocal (Ev.chdir env.autoQmail) = false := rfl
+      split
+      · rename_i evs c h; rw [h] at hq; exact guardedAny_of_quiet _ _ (quiet_cons hc hq)
+      · rename_i evs h; rw [h] at hq; exact guardedAny_of_quiet _ _ (quiet_cons hc hq)
+      · rename_i evs x h; rw [h] at hq
+        split
+        · exact guardedAny_of_quiet _ _ (quiet_cons hc hq)
+        · rename_i id _
+          show guardedAny [] (Ev.chdir env.autoQmail :: (evs ++ [Ev.fdmove 0, Ev.fdmove 1, Ev.fdcopy 2] ++
+                 (dropAndExec env flt id loc dom sender).1)) = true
+          have hq2 : Quiet (Ev.chdir env.autoQmail :: (evs ++ [Ev.fdmove 0, Ev.fdmove 1, Ev.fdcopy 2])) :=
+            quiet_cons hc (quiet_append hq quiet_fds)
+          have := guardedAny_quiet _ [] (dropAndExec env flt id loc dom sender).1 hq2
+          rw [List.cons_append] at this
+          rw [this]; exact dropAndExec_guarded ..
+
+/-- the same for docmd(), i.e. including the split of the recipient at its last '@' -/
+theorem C11_order_docmd (env : Env) (flt : Fault) (sender recip : Bytes) :
+    guardedAny [] (docmd env flt sender recip).1 = true := by
+  unfold docmd
+  split
+  · simp [guardedAny]
+  · exact C11_order ..
+
+/-- Exactly the assigned identity: if the lookup (table or qmail-getpw) yields the record `x` with fields `id`,
+    every execv of qmail-local in the trace follows the drop to exactly `id.gid`/`id.uid` and carries
+    `[bin/qmail-local, --, user, home, local, dash, ext, domain, sender, aliasempty]`. -/
+theorem C11_argv (env : Env) (flt : Fault) (sender loc dom : Bytes) (evs : List Ev) (x : Bytes) (id : Ident)
+    (h : nughdeGet env flt loc = (evs, .hit x)) (hp : parseNughde x = some id) :
+    traceOk env id loc dom sender [] (spawnChild env flt sender loc dom).1 = true := by
+  have hq := nughdeGet_quiet env flt loc
+  rw [h] at hq
+  have hc : isExecLocal (Ev.chdir env.autoQmail) = false := rfl
+  unfold spawnChild
+  split
+  · simp [traceOk]
+  · split
+    · simp [traceOk, execOk]
+    · simp only [h, hp]
+      have hq2 : Quiet (Ev.chdir env.autoQmail :: (evs ++ [Ev.fdmove 0, Ev.fdmove 1, Ev.fdcopy 2])) :=
+        quiet_cons hc (quiet_append hq quiet_fds)
+      have := traceOk_quiet env id loc dom sender _ [] (dropAndExec env flt id loc dom sender).1 hq2
+      rw [List.cons_append] at this
+      rw [this]; exact dropAndExec_traceOk ..
+
+/-- … and it is started: with no fault and a non-zero uid the child's calls are exactly
+    chdir, (the qmail-getpw child's calls), fd moves, setgroups, setgid, setuid, getuid, execv. -/
+theorem C11_runs_assigned_user (env : Env) (sender loc dom : Bytes) (evs : List Ev) (x : Bytes) (id : Ident)
+    (hl : loc ≠ []) (h : nughdeGet env .none loc = (evs, .hit x)) (hp : parseNughde x = some id) (hu : id.uid ≠ 0) :
+    spawnChild env .none sender loc dom =
+      (.chdir env.autoQmail :: (evs ++ [.fdmove 0, .fdmove 1, .fdcopy 2] ++
+        [.setgroups 1 id.gid true, .setgid id.gid true, .setuid id.uid true, .getuid id.uid,
+         .execv localPath (argvOf env id loc dom sender)]), .exec) := by
+  unfold spawnChild
+  have : loc.isEmpty = false := by cases loc <;> simp_all
+  simp [this, h, hp, dropAndExec_run env id loc dom sender hu]
+
+/-- Never root: if the record assigns uid 0 (also through a non-numeric or a wrapping uid field) qmail-local is not
+    executed under any fault plan, and without a fault the child exits QLX_ROOT. -/
+theorem C11_never_root (env : Env) (flt : Fault) (sender loc dom : Bytes) (evs : List Ev) (x : Bytes) (id : Ident)
+    (h : nughdeGet env flt loc = (evs, .hit x)) (hp : parseNughde x = some id) (hu : id.uid = 0) :
+    noExec (spawnChild env flt sender loc dom).1 = true ∧ (spawnChild env flt sender loc dom).2 ≠ .exec ∧
+    (flt = .none → loc ≠ [] → (spawnChild env flt sender loc dom).2 = .exit QLX_ROOT) := by
+  have hq := nughdeGet_quiet env flt loc
+  rw [h] at hq
+  have hc : isExecLocal (Ev.chdir env.autoQmail) = false := rfl
+  obtain ⟨hr1, hr2, hr3⟩ := dropAndExec_root env flt id loc dom sender hu
+  unfold spawnChild
+  split
+  · rename_i he; refine ⟨by simp [noExec], by simp, ?_⟩
+    intro _ hl; cases loc <;> simp_all
+  · split
+    · rename_i hf; refine ⟨by simp [noExec, isExecLocal], by simp, ?_⟩
+      intro h0; simp [h0] at hf
+    · simp only [h, hp]
+      refine ⟨?_, hr2, fun h0 _ => hr3 h0⟩
+      exact noExec_of_quiet _ (quiet_cons hc (quiet_append (quiet_append hq quiet_fds) hr1))
+
+/-! ## errors defer -/
+
+/-- report(): every exit code that stands for a database / lookup / identity error is reported as `Z` (deferral);
+    the table is regenerated from qmail-lspawn.c and qlx.h on every run. -/
+theorem C11_defer :
+    ∀ c ∈ [QLX_CDB, QLX_NOMEM, QLX_SYS, QLX_NFS, QLX_EXECPW, QLX_USAGE, QLX_NOALIAS, QLX_ROOT, QLX_EXECSOFT],
+      reportByte c = 90 := by
+  decide
+
+/-- a child killed by a signal is deferred as well -/
+theorem C11_defer_crash : reportCrashed = 90 := by decide
+
+end Nq.Props.C11
